@@ -24,6 +24,7 @@ type thread struct {
 	what    string
 	vc      vclock
 	name    string
+	savedFrame *frame
 }
 
 type vclock []int
@@ -231,8 +232,10 @@ func (i *interpreter) switchTo(me, next *thread) {
 		return
 	}
 	i.cur = next
+	me.savedFrame = i.curFrame
 	next.baton <- struct{}{}
 	<-me.baton
+	i.curFrame = me.savedFrame
 	if me.killed {
 		panic(threadKill{})
 	}
@@ -386,11 +389,13 @@ func (i *interpreter) race(other string, otherWrite, write bool) {
 	if i.p.replaying() {
 		return
 	}
-	key := "race|" + msg
-	if i.p.reached[key] {
+	if i.p.races == nil {
+		i.p.races = map[string]bool{}
+	}
+	if i.p.races[msg] {
 		return
 	}
-	i.p.reached[key] = true
+	i.p.races[msg] = true
 	i.reportViolation("race", "data race", "", msg, i.p.model)
 }
 
